@@ -47,7 +47,7 @@ REAL_VS_STUB = {
 }
 PROBES = ["crash_in_header", "crash_in_key", "crash_in_value", "crash_on_boundary", "crash_before_first_byte",
           "torn_header_announces_beyond_eof", "recovery_append_done", "second_crash", "stale_handle_recovery",
-          "direct_raw_write_of_value", "live_writer_killed", "live_survivor_session_after_kill", "live_torn_write"]
+          "direct_raw_write_of_value", "molecule_library_recovery", "live_writer_killed", "live_survivor_session_after_kill", "live_torn_write"]
 
 RECOVERIES = ["r", "a", "stale_r", "stale_a", "coll_r", "coll_w", "stale_coll_w", "a_crash2"]
 
@@ -118,8 +118,8 @@ def _gen_kill(r, nses):
 def gen_plan(r, tier, index):
     live = r.random() < (0.25 if tier == "quick" else 0.3)
     bufsize = r.choice([8192, 8192, 4096, 4096, 65536, 64, 16, 1])
-    layer = r.choice(["ukv", "ukv", "coll", "coll"])
-    ascii_only = layer == "coll" or live
+    layer = r.choice(["ukv", "ukv", "ukv", "coll", "coll", "coll", "mlib"])
+    ascii_only = layer in ("coll", "mlib") or live
     used = set()
     ncom = r.choice([0, 1, 1, 2, 3, 5])
     nses = r.choice([1, 1, 2, 2, 3, 4, 6])
@@ -157,22 +157,58 @@ def gen_plan(r, tier, index):
         if not _all_ascii(plan):
             pool = [x for x in RECOVERIES if "coll" not in x]  # Collections need utf-8 keys
         plan["recoveries"] = sorted(r.sample(pool, min(k, len(pool))), key=RECOVERIES.index)
+        if layer == "mlib":
+            plan["recoveries"] = ["mlib_r"] + [x for x in plan["recoveries"] if x != "a_crash2"][:2]
+            plan["b0len"] = 0
     return plan
 
 
 # ------------------------------------------------------------------------------ helpers on molli
+_MOLCACHE = {}
+
+
+def _mol_for(rec):
+    """The molecule stored for a record in the 'mlib' layer (deterministic in key, tag and pad size)."""
+    import molli as ml
+
+    key = key_bytes(rec["k"]).decode("latin-1")
+    tag, n = rec["v"][0], rec["v"][1]
+    m = ml.Molecule(n_atoms=3, name=key)
+    for a, e in zip(m.atoms, ("O", "H", "H")):
+        a.element = ml.Element[e]
+    m.coords[:] = [[float(tag % 5), 0.0, 0.25], [0.0, 1.0, 0.0], [0.0, 0.0, -1.5]]
+    m.attrib["t"] = tag
+    m.attrib["pad"] = value_bytes([tag, min(n, 2000)])
+    return m
+
+
+def _val(plan, rec) -> bytes:
+    """The exact bytes a put of this record stores under the plan's layer."""
+    if plan["layer"] != "mlib":
+        return value_bytes(rec["v"])
+    ck = (repr(rec["k"]), tuple(rec["v"][:2]))
+    if ck not in _MOLCACHE:
+        import msgpack
+        from molli.chem.io import _serialize_mol_v2
+
+        _MOLCACHE[ck] = msgpack.dumps(_serialize_mol_v2(_mol_for(rec)), use_single_float=True)
+        if len(_MOLCACHE) > 4000:
+            _MOLCACHE.clear()
+    return _MOLCACHE[ck]
+
+
 def _mk_coll(path, readonly, bufsize, **kw):
     from molli.storage import Collection, UkvCollectionBackend
 
     return Collection(path, UkvCollectionBackend, readonly=readonly, bufsize=bufsize, **kw)
 
 
-def _layout(image0_len, session):
+def _layout(image0_len, session, plan=None):
     """Intended on-disk layout of the session's records: list of (start, key_start, val_start, end)."""
     out = []
     pos = image0_len
     for rec in session:
-        kl, vl = len(key_bytes(rec["k"])), len(value_bytes(rec["v"]))
+        kl, vl = len(key_bytes(rec["k"])), len(_val(plan, rec) if plan else value_bytes(rec["v"]))
         out.append((pos, pos + 5, pos + 5 + kl, pos + 5 + kl + vl))
         pos += 5 + kl + vl
     return out
@@ -200,14 +236,14 @@ def _region(layout, size):
 
 _REGION_CLASS = {"hdr": "torn-block", "key": "torn-block", "val": "torn-block", "boundary": "block-boundary",
                  "before": "block-boundary", "other": "unexpected-layout"}
-_REC_CLASS = {"r": "reopen-r", "a": "reopen-a", "stale_r": "stale-handle", "stale_a": "stale-handle", "coll_r": "collection",
+_REC_CLASS = {"mlib_r": "molecule-library", "r": "reopen-r", "a": "reopen-a", "stale_r": "stale-handle", "stale_a": "stale-handle", "coll_r": "collection",
               "coll_w": "collection", "stale_coll_w": "stale-handle", "a_crash2": "reopen-a"}
 
 
 class _Expect:
     def __init__(self, plan):
-        self.committed = {key_bytes(x["k"]): value_bytes(x["v"]) for x in plan["committed"]}
-        self.session = {key_bytes(x["k"]): value_bytes(x["v"]) for x in plan["session"]}
+        self.committed = {key_bytes(x["k"]): _val(plan, x) for x in plan["committed"]}
+        self.session = {key_bytes(x["k"]): _val(plan, x) for x in plan["session"]}
 
 
 def _check_view(res, sig_base, label, listing, getter, must, may, detail_ctx):
@@ -314,6 +350,25 @@ def _recover(res, kind, image, plan, exp, stale_blobs, sig_base, ctx, depth=0):
                 h2.close()
                 if kind == "a_crash2" and depth == 0:
                     _second_crash(res, kern, image, plan, exp, visible, sig_base, ctx)
+        elif kind == "mlib_r":
+            import molli as ml
+
+            lib = ml.MoleculeLibrary(path)
+            with lib.reading():
+                ks = sorted(lib.keys())
+                ok = _check_view(res, sig_base, "MoleculeLibrary.reading (raw bytes)", [k.encode("latin-1") for k in ks],
+                                 lambda kb: lib._backend.get(kb.decode("latin-1")), must, may, ctx)
+                if ok:
+                    for k in ks:
+                        try:
+                            m = lib[k]
+                        except Exception as e:  # noqa: BLE001
+                            res.violate("c-listed-molecule-undecodable", f"{sig_base}|c-undecodable", f"MoleculeLibrary[{k!r}] raised {e!r}; {ctx}")
+                            return
+                        if m.name != k or m.n_atoms != 3:
+                            res.violate("c-listed-molecule-wrong", f"{sig_base}|c-molecule", f"MoleculeLibrary[{k!r}] decoded to {m.name!r} with {m.n_atoms} atoms; {ctx}")
+                            return
+                    res.stats["probe:molecule_library_recovery"] += 1
         elif kind == "coll_r":
             c = _mk_coll(path, True, plan["coll_bufsize"])
             with c.reading():
@@ -440,6 +495,14 @@ def _run_enum(plan, trace=False):
             with UKVFile(path, mode="x", h2=h2, b0=b0) as f:
                 for rec in plan["committed"]:
                     f.put(key_bytes(rec["k"]), value_bytes(rec["v"]))
+        elif plan["layer"] == "mlib":
+            import molli as ml
+
+            lib = ml.MoleculeLibrary(path, readonly=False, bufsize=plan["coll_bufsize"], comment=plan["h2"] or None)
+            if plan["committed"]:
+                with lib.writing():
+                    for rec in plan["committed"]:
+                        lib[key_bytes(rec["k"]).decode("latin-1")] = _mol_for(rec)
         else:
             c = _mk_coll(path, False, plan["coll_bufsize"], comment=plan["h2"], b0=b0)
             if plan["committed"]:
@@ -462,6 +525,11 @@ def _run_enum(plan, trace=False):
             for rec in plan["session"]:
                 f.put(key_bytes(rec["k"]), value_bytes(rec["v"]))
             f.close()
+        elif plan["layer"] == "mlib":
+            lib = ml.MoleculeLibrary(path, readonly=False, bufsize=plan["coll_bufsize"])
+            with lib.writing():
+                for rec in plan["session"]:
+                    lib[key_bytes(rec["k"]).decode("latin-1")] = _mol_for(rec)
         else:
             c = _mk_coll(path, False, plan["coll_bufsize"])
             with c.writing():
@@ -472,7 +540,7 @@ def _run_enum(plan, trace=False):
         if k0.counters["seam:open"] == 0:
             raise K.HarnessError("SEAM-LOST seam:open (C03 session did not go through SimFS)")
 
-        layout = _layout(len(image0), plan["session"])
+        layout = _layout(len(image0), plan["session"], plan)
         total = sum(len(w[2]) for w in wlog if w[0] == "w")
         if any(len(w[2]) > plan["bufsize"] for w in wlog if w[0] == "w") and plan["bufsize"] >= 64:
             res.stats["probe:direct_raw_write_of_value"] += 1
